@@ -20,8 +20,20 @@ class ProgProp(object):
     def tune(self, rng, cfg, tier):
         return cfg
 
+    def base_cfg(self, tier):
+        cfg = dict(self.cfg)
+        if tier == "thorough":
+            # deeper bounds: larger programs, wider yields, more kinds
+            cfg["max_templates"] = cfg.get("max_templates", gen.BASE["max_templates"]) * 2
+            cfg["max_steps"] = cfg.get("max_steps", gen.BASE["max_steps"]) + 2
+            cfg["fanout"] = cfg.get("fanout", gen.BASE["fanout"]) + 1
+            cfg["max_kinds"] = min(4, cfg.get("max_kinds", gen.BASE["max_kinds"]) + 1)
+            cfg["max_instances"] = 1200
+            cfg["nest"] = 3
+        return cfg
+
     def gen(self, rng, tier, k):
-        cfg = gen.swarm(rng, self.cfg)
+        cfg = gen.swarm(rng, self.base_cfg(tier))
         cfg = self.tune(rng, cfg, tier)
         spec = gen.gen_program(rng, cfg)
         self.post_spec(rng, spec, cfg, tier)
